@@ -563,6 +563,18 @@ def conclude(prop, tier, level, units, build_errors, rule, t0, extra_cov=None, m
         inconclusive.append("no case was executed")
     elif died_other * 2 > cases:
         inconclusive.append("%d of %d cases were cut short by violations of other properties" % (died_other, cases))
+    else:
+        # the same per unit: a parameter list whose cases mostly end in another property's violation was not looked at by
+        # this property's monitors
+        cut_by_unit = {}
+        for u, ev in cross:
+            if not ev.get("soft"):
+                cut_by_unit.setdefault(u.label, set()).add(ev.get("case"))
+        for u in units:
+            n_cut = len(cut_by_unit.get(u.label, ()))
+            if n_cut >= 4 and n_cut * 2 > len(u.case_ends):
+                inconclusive.append("%s: %d of %d cases were cut short by violations of other properties" % (u.label, n_cut, len(u.case_ends)))
+                break
     for opn in require_ops:
         if ops.get(opn, 0) == 0:
             inconclusive.append("operation class %s was never evaluated" % opn)
